@@ -5,7 +5,7 @@
    reach any wire value or machine state; (c) is compared as multisets by the check. *)
 From Coq Require Import Permutation.
 From HclV Require Import Base Expr Machine MachineSpec MachineProofs SchedSpec SchedProofs C12Lemmas TableSpec TableProofs.
-From HclV Require TextLevelSpec TextLevelProofs.
+From HclV Require TextLevelSpec TextLevelProofs OutputOrderSpec OutputOrderProofs.
 From HclV Require OrderSpec OrderProofs DiagOrderSpec DiagOrderProofs LoopProofs RenameSpec RenameProofs.
 From HclV Require Import Generated.
 Open Scope string_scope.
@@ -165,3 +165,42 @@ Proof.
   split; [exact TextLevelProofs.text_accepted_under_every_hash_order_holds | exact TextLevelProofs.text_hash_order_same_output_draft_refuted].
 Qed.
 Print Assumptions C12_text_level.
+
+(* ---- the WHOLE standard output across hash orders (OutputOrderSpec.v / OutputOrderProofs.v) ---- *)
+(* per-action lines are printed only under o_trace_assignments / o_trace_fixed (command line:
+   --trace-assignments / -d), except the one instruction line of the one instruction-memory read;
+   hence for an accepted text and ANY two hash orders the whole standard output - per-cycle dumps,
+   instruction lines, prompt lines, final dump - is byte-identical under every flag list without -d
+   and --trace-assignments; under those two the outputs have the same lines cycle by cycle, the
+   per-action lines of a cycle being permuted (the variation the property allows) *)
+Theorem C12_whole_output_identical_across_hash_orders :
+  OutputOrderSpec.stmt_action_text_switches /\ OutputOrderSpec.stmt_flags_and_action_lines /\
+  OutputOrderSpec.stmt_text_one_instruction_port /\
+  OutputOrderSpec.stmt_text_hash_order_same_output_default /\ OutputOrderSpec.stmt_text_hash_order_same_output_flags /\
+  OutputOrderSpec.stmt_text_hash_order_same_lines_traced.
+Proof.
+  split; [exact OutputOrderProofs.action_text_switches_holds |].
+  split; [exact OutputOrderProofs.flags_and_action_lines_holds |].
+  split; [exact OutputOrderProofs.text_one_instruction_port_holds |].
+  split; [exact OutputOrderProofs.text_hash_order_same_output_default_holds |].
+  split; [exact OutputOrderProofs.text_hash_order_same_output_flags_holds |].
+  exact OutputOrderProofs.text_hash_order_same_lines_traced_holds.
+Qed.
+Print Assumptions C12_whole_output_identical_across_hash_orders.
+(* machine level: two valid schedules of the same actions print the same text when the per-action
+   lines are off and there is at most one instruction line; false with two instruction ports *)
+Theorem C12_schedules_print_the_same_text :
+  OutputOrderSpec.stmt_cycle_text_from_final_values /\ OutputOrderSpec.stmt_exec_actions_same_messages /\
+  OutputOrderSpec.stmt_exec_actions_text_order_free /\ OutputOrderSpec.stmt_step_text_order_free /\
+  OutputOrderSpec.stmt_run_text_order_free /\ OutputOrderSpec.stmt_session_text_order_free /\
+  ~ OutputOrderSpec.stmt_exec_actions_text_order_free_draft.
+Proof.
+  split; [exact OutputOrderProofs.cycle_text_from_final_values_holds |].
+  split; [exact OutputOrderProofs.exec_actions_same_messages_holds |].
+  split; [exact OutputOrderProofs.exec_actions_text_order_free_holds |].
+  split; [exact OutputOrderProofs.step_text_order_free_holds |].
+  split; [exact OutputOrderProofs.run_text_order_free_holds |].
+  split; [exact OutputOrderProofs.session_text_order_free_holds |].
+  exact OutputOrderProofs.exec_actions_text_order_free_draft_refuted.
+Qed.
+Print Assumptions C12_schedules_print_the_same_text.
